@@ -142,20 +142,20 @@ def engine_consts(dev, menu, lines, maxlines, maxfiles, joinsets, modes, intrs, 
 
 
 def engine_run(c, name, menu, lines="Lines3", maxlines=3, maxfiles=2, joinsets="JoinSets", modes=("batch",), intrs="NoIntr",
-               tdefs=("plain", "knn", "vdef"), invs=ENGINE_INVS, props=("NoiseIsStutter",), timeout=1500):
+               tdefs=("plain", "knn", "vdef"), invs=ENGINE_INVS, props=("NoiseIsStutter",), timeout=1500, module="MC_Engine"):
     """One bounded configuration of Engine.tla: (1) TLC checks the property invariants on the Ideal model,
     (2) every behaviour of the as-built model (Ideal + open findings) is replayed on the real code."""
     dev = vlib.open_devs(ENGINE_DEVS)
     consts = lambda d: engine_consts(d, menu, lines, maxlines, maxfiles, joinsets, modes, intrs, tdefs)
     if not dev:
-        r = tlc("MC_Engine", cfg_text(constants=consts([]), invariants=list(invs) + ["Emit"], properties=props), "engine-" + name, workers=W, timeout=timeout)
+        r = tlc(module, cfg_text(constants=consts([]), invariants=list(invs) + ["Emit"], properties=props), "engine-" + name, workers=W, timeout=timeout)
         expect_holds(r, "Engine %s (Ideal)" % name)
         c.add_tlc(r)
     else:
-        r0 = tlc("MC_Engine", cfg_text(constants=consts([]), invariants=list(invs), properties=props), "engine-ideal-" + name, workers=W, timeout=timeout)
+        r0 = tlc(module, cfg_text(constants=consts([]), invariants=list(invs), properties=props), "engine-ideal-" + name, workers=W, timeout=timeout)
         expect_holds(r0, "Engine %s (Ideal)" % name)
         c.add_tlc(r0)
-        r = tlc("MC_Engine", cfg_text(constants=consts(dev), invariants=["TypeOK", "Emit"]), "engine-" + name, workers=W, timeout=timeout)
+        r = tlc(module, cfg_text(constants=consts(dev), invariants=["TypeOK", "Emit"]), "engine-" + name, workers=W, timeout=timeout)
         expect_holds(r, "Engine %s (as built: %s)" % (name, ",".join(dev)))
         c.add_tlc(r)
     if r.replays == 0:
@@ -182,10 +182,11 @@ def engine_sim(c, name, menu, lines="Lines4", maxlines=10, num=2000, modes=("bat
     c.states += r.replays; c.transitions += r.generated
     if r.replays == 0:
         raise ToolError("TLC simulation produced no finished behaviour for " + name)
+    t_r = time.time()
     rep = vh_replay("engine", r.replay_path, "engine-sim-" + name, env_extra={"TZ": "UTC"})
     c.add_report(rep, ENGINE_WHAT)
     c.extra.setdefault("configs", []).append({"name": "sim-" + name, "menu": menu, "lines": lines, "max_lines": maxlines, "simulated_behaviours": r.replays,
-                                              "behaviours_replayed": rep.get("cases", 0)})
+                                              "behaviours_replayed": rep.get("cases", 0), "tlc_s": round(r.wall, 1), "replay_s": round(time.time() - t_r, 1)})
 
 
 def engine_follow_run(c, name, menu, lines="Lines3", maxlines=3, tdefs=("plain",), sample=1500, invs=("TypeOK", "FollowLimit", "IncrRefinesSem", "IncrSelectRefinesSem")):
@@ -238,8 +239,10 @@ def check_C03(tier):
     engine_run(c, "select", "SelectMenu", lines="Lines4", maxlines=4 if t else 3, maxfiles=2 if t else 1, modes=("batch", "incr"))
     engine_run(c, "select-extremes", "SelectMenu", lines="LinesBig", maxlines=2 if t else 1, maxfiles=1, modes=("batch", "incr"), tdefs=("plain", "vdef"))
     engine_run(c, "functions", "FunctionMenu", lines="LinesAgg", maxlines=3 if t else 2, maxfiles=1, modes=("incr", "batch"), tdefs=("plain",))
+    # the same meaning when the statement is written with the fewest parentheses the standard precedence allows (what a user types)
+    engine_run(c, "precedence", "PrecMenu", lines="Lines4", maxlines=2, maxfiles=1, modes=("incr", "batch"), tdefs=("plain",))
     # timestamps and intervals (calendar arithmetic under TZ=UTC), pow / sqrt / regex_matches / date_trunc / EXTRACT(EPOCH), casts between them
-    engine_run(c, "calendar", "CalMenu", lines="LinesCal", maxlines=2 if t else 1, maxfiles=1, modes=("incr", "batch"), tdefs=("plain",))
+    engine_run(c, "calendar", "CalMenu", lines="LinesCal", maxlines=3 if t else 2, maxfiles=1, modes=("incr", "batch"), tdefs=("plain",))
     # impl -> spec, semantic: random typed expression trees (depth <= 4) evaluated by the real engine; TLC evaluates Expr.Eval on each
     trace_check(c, "expr", "Trace_Expr", 12000 if t else 4000, "expr", "random expression trees vs Expr.Eval", constants={"Dev": set()}, rounds=3 if t else 1, env={"TZ": "UTC"})
     laws_trace(c, 2 if t else 1, 300 if t else 100)
@@ -295,6 +298,8 @@ def check_C11(tier):
     engine_follow_run(c, "tables", "CoreMenu", lines="LinesAgg", maxlines=4 if t else 3, tdefs=("plain", "knn"), sample=4000 if t else 1200)
     # line-by-line feeding of a statement with a join (library API: with_executed_joined_table + execute per line)
     engine_run(c, "incr-join", "JoinMenu", lines="LinesJ", maxlines=3 if t else 2, maxfiles=1, joinsets="JoinSets", modes=("incr",), tdefs=("plain",))
+    # values that are equal but distinguishable (0.0 / -0.0, NaN / -NaN) arriving on either side of a shown table: PERCENTILE / MIN / MAX / GROUP BY keep the batch result
+    engine_run(c, "incr-real-order", "RealOrderMenu", lines="LinesPick", maxlines=3, maxfiles=1, modes=("incr",), tdefs=("plain",), invs=["TypeOK", "IncrRefinesSem"], props=())
     engine_run(c, "incr-calendar", "CalAggMenu", lines="LinesCal", maxlines=3 if t else 2, maxfiles=1, modes=("incr",), tdefs=("plain",))
     laws_trace(c, 2 if t else 1, 300 if t else 100)
     engine_sim(c, "incr", "AggMenu", lines="LinesRich", maxlines=10, num=2000 if t else 150, modes=("incr",))
@@ -434,6 +439,7 @@ def check_C16(tier):
     # 1. the Ideal order satisfies every law on all triples of the boundary universe; with no open finding the as-built order too
     r = tlc("MC_Values", cfg_text(constants={"Dev": set()}, invariants=IDEAL_LAWS + ASBUILT_LAWS), "values-laws", workers=W)
     expect_holds(r, "Values laws (Ideal)"); c.add_tlc(r)
+    n_triples = r.distinct; n_values = round(n_triples ** (1.0 / 3))
     # 2. each open deviation breaks a law in the model
     for d in dev:
         rw = tlc("MC_Values", cfg_text(constants={"Dev": {q(d)}}, invariants=ASBUILT_LAWS), "values-dev-" + d, workers=W)
@@ -447,7 +453,7 @@ def check_C16(tier):
     c.add_report(rep, reg("Value ==/cmp/hash vs Values.tla (replay)", "values"))
     # 4. every consumer named in the property, on every same-kind pair: WHERE, DISTINCT, GROUP BY (grouping + order), MIN/MAX, array_unique
     engine_run(c, "pairs", "PairMenu", lines="LinesPair", maxlines=2, maxfiles=1, modes=("incr",), tdefs=("plain",),
-               invs=["TypeOK", "IncrRefinesSem", "IncrSelectRefinesSem"], props=())
+               invs=["TypeOK", "IncrRefinesSem", "IncrSelectRefinesSem"], props=(), module="MC_EnginePairs")
     # 5. impl -> spec: random values
     for i in range(3 if t else 1):
         tp = vh_trace("values", 6000 if t else 2500, "values%d" % i, seed_=vlib.seed() * 100 + i, env_extra={"TZ": "UTC"})
@@ -459,7 +465,7 @@ def check_C16(tier):
         else:
             keep = os.path.join(vlib.REPLAYS, "C16-trace-%d-%d.ndjson" % (vlib.seed(), i)); os.makedirs(vlib.REPLAYS, exist_ok=True); os.replace(tp, keep)
             c.violation("random value comparisons rejected by Trace_Values.tla", {"trace": keep, "tlc": tr.log[max(0, tr.log.find("TRACE-REJECTED") - 5):][:900]})
-    c.rule = ("TLC checks trichotomy, transitivity, equality = order, equal => same hash and numbers-by-value on all 74 088 triples of a 42-value boundary universe; "
+    c.rule = ("TLC checks trichotomy, transitivity, equality = order, equal => same hash and numbers-by-value on all %d triples of a %d-value boundary universe; " % (n_triples, n_values) +
               "every ordered pair is executed on the real Value (==, cmp, partial_cmp, <, >, Hash with two hashers) and through WHERE / DISTINCT / GROUP BY / MIN / MAX / array_unique; "
               "random wider pairs are validated as a trace. Non-trivial = both values non-NULL; distinct by the pair.")
     c.assumptions = ["semantic comparison under TZ=UTC", "hash inequality is never required, only equal => equal hash"]
@@ -595,6 +601,8 @@ def check_C15(tier):
                invs=["TypeOK", "BatchRefinesSem", "PermLaw", "CombineLaw"], props=())
     # aggregates over REALs closer than f64::EPSILON / the two zeros / NaN, in both arrival orders (typed comparison in incremental mode)
     engine_run(c, "real-order", "RealOrderMenu", lines="LinesPick", maxlines=3, maxfiles=1, modes=("incr",), tdefs=("plain",), invs=["TypeOK", "IncrRefinesSem", "PermLaw"], props=())
+    # order-insensitive aggregates over TIMESTAMP / INTERVAL values with NULLs in every position of a group (every ordering of every input)
+    engine_run(c, "order-calendar", "CalAggMenu", lines="LinesCal", maxlines=3, maxfiles=1, tdefs=("plain",), invs=["TypeOK", "BatchRefinesSem", "PermLaw"], props=())
     # COUNT(DISTINCT) with up to 10 distinct values and recurrences: long random inputs
     engine_sim(c, "count-distinct", "DistinctCountMenu", lines="LinesDistinct", maxlines=16, num=4000 if t else 500, modes=("batch",), invs=["TypeOK", "BatchRefinesSem"])
     laws_trace(c, 3 if t else 1, 400 if t else 150)
@@ -650,7 +658,7 @@ def check_C18(tier):
     t = tier == "thorough"
     vlib.build_cli()
     # the as-built machine is a deterministic function of (definition, statement, input): every state has at most one successor
-    rep = engine_run(c, "determinism", "CoreLimitMenu", lines="Lines4", maxlines=4 if t else 3, maxfiles=2, modes=("batch", "incr"), tdefs=("plain", "vdef"))
+    rep = engine_run(c, "determinism", "CoreLimitMenu", lines="Lines4", maxlines=4 if t else 3, maxfiles=2, modes=("batch", "incr"), tdefs=("plain", "vdef") if t else ("plain",))
     logp = os.path.join(vlib.BUILD, "tlc", "engine-determinism", "tlc.log")
     try:
         m = __import__("re").search(r"average outdegree of the complete state graph is \d+ \(minimum is \d+, the maximum (\d+)", open(logp).read())
